@@ -121,7 +121,10 @@ def drive(tier):
     # every single-character substitution, deletion and insertion of valid check strings
     nvalid = 12 if tier == "quick" else 300
     for s in valid[:nvalid]:
-        for i in range(len(s)):
+        check(s)            # the genuine string is accepted immediately before (and again after) its corruptions are offered:
+        for i in range(len(s)):                                     # nothing remembered about it may vouch for them
+            if i >= len(s) - 6:
+                check(s)
             for c in ALPHA + NONALPHA:
                 if c != s[i]:
                     check(s[:i] + c + s[i + 1:])
@@ -129,6 +132,7 @@ def drive(tier):
         for i in range(len(s) + 1):
             for c in (list(ALPHA) if i % 7 == 0 else r.sample(ALPHA, 4)) + ["0"]:
                 check(s[:i] + c + s[i:])
+        check(s)
     return R.recs
 
 
